@@ -4,6 +4,9 @@ import Agd.Model.Access
 
 * `GetDNSBasicRule` as a fold: the winner is a member of maximal priority class.
 * `nameBlockedSpec`: the declarative reading of "the question matches a blocked-name rule".
+* `TokMatch` / `SeqMatch` / `DomainStart` / `PatMatches`: the declarative reading of a rule pattern
+  (`||`, `|`, literal characters, `*`, `^`, final `|`), free of the model's recursive matchers, and
+  the proof that the executable matcher decides it (`pat_matches_iff`); `domain_rule_iff` for `||name^`.
 * the access part of the handler as it was *before* the two repairs (`wrapPre`), used only by the
   counter-example theorems.
 -/
@@ -240,5 +243,280 @@ def Rejected (g : Global) (r : Req) : Prop :=
     ∃ p, r.dev = .ok (some p) ∧
       ((¬ Allowed p r ∧ (AsnIn p.blockedASN r.asn ∨ ∃ n ∈ p.blockedNets, InSubnet n r.addr)) ∨
         NameBlocked p.eng r)
+
+/-! ## Pattern matching, declaratively -/
+
+/-- what one token may consume: `w` is the consumed part, `rest` what follows it -/
+def TokMatch : Tok → List Char → List Char → Prop
+  | .lit c, w, _ => ∃ x, w = [x] ∧ x.toLower = c.toLower
+  | .star, _, _ => True
+  | .sep, w, rest => (∃ x, w = [x] ∧ nonSepChar x = false) ∨ (w = [] ∧ rest = [])
+
+/-- the token sequence can be laid over a prefix of `s` (over all of `s` when `endAnch`) -/
+def SeqMatch (endAnch : Bool) : List Tok → List Char → Prop
+  | [], s => endAnch = true → s = []
+  | t :: ts, s => ∃ w rest, s = w ++ rest ∧ TokMatch t w rest ∧ SeqMatch endAnch ts rest
+
+theorem anySuffix_iff (p : List Char → Bool) (s : List Char) :
+    anySuffix p s = true ↔ ∃ w rest, s = w ++ rest ∧ p rest = true := by
+  induction s with
+  | nil =>
+    simp only [anySuffix]
+    constructor
+    · intro h; exact ⟨[], [], rfl, h⟩
+    · rintro ⟨w, rest, h, hp⟩
+      have := List.append_eq_nil_iff.mp h.symm
+      rw [this.2] at hp; exact hp
+  | cons x xs ih =>
+    simp only [anySuffix, Bool.or_eq_true, ih]
+    constructor
+    · rintro (h | ⟨w, rest, h, hp⟩)
+      · exact ⟨[], x :: xs, rfl, h⟩
+      · exact ⟨x :: w, rest, by rw [h]; rfl, hp⟩
+    · rintro ⟨w, rest, h, hp⟩
+      cases w with
+      | nil => left; rw [h]; exact hp
+      | cons y w' =>
+        right
+        simp only [List.cons_append, List.cons.injEq] at h
+        exact ⟨w', rest, h.2, hp⟩
+
+theorem matchToks_iff (e : Bool) (ts : List Tok) (s : List Char) :
+    matchToks e ts s = true ↔ SeqMatch e ts s := by
+  induction ts generalizing s with
+  | nil => cases e <;> simp [matchToks, SeqMatch]
+  | cons t ts ih =>
+    cases t with
+    | lit c =>
+      cases s with
+      | nil =>
+        simp only [matchToks, SeqMatch, TokMatch]
+        constructor
+        · intro h; cases h
+        · rintro ⟨w, rest, h, ⟨x, hw, _⟩, _⟩
+          rw [hw] at h; cases h
+      | cons x xs =>
+        simp only [matchToks, SeqMatch, TokMatch, Bool.and_eq_true, beq_iff_eq, ih]
+        constructor
+        · rintro ⟨h1, h2⟩; exact ⟨[x], xs, rfl, ⟨x, rfl, h1⟩, h2⟩
+        · rintro ⟨w, rest, h, ⟨y, hw, hy⟩, hs⟩
+          rw [hw] at h
+          simp only [List.cons_append, List.nil_append, List.cons.injEq] at h
+          rw [h.1, h.2]; exact ⟨hy, hs⟩
+    | star =>
+      simp only [matchToks, SeqMatch, TokMatch, anySuffix_iff, ih, true_and]
+    | sep =>
+      cases s with
+      | nil =>
+        simp only [matchToks, SeqMatch, TokMatch, ih]
+        constructor
+        · intro h; exact ⟨[], [], rfl, Or.inr ⟨rfl, rfl⟩, h⟩
+        · rintro ⟨w, rest, h, _, hs⟩
+          have := List.append_eq_nil_iff.mp h.symm
+          rw [this.2] at hs; exact hs
+      | cons x xs =>
+        simp only [matchToks, SeqMatch, TokMatch, Bool.and_eq_true, Bool.not_eq_true', ih]
+        constructor
+        · rintro ⟨h1, h2⟩; exact ⟨[x], xs, rfl, Or.inl ⟨x, rfl, h1⟩, h2⟩
+        · rintro ⟨w, rest, h, (⟨y, hw, hy⟩ | ⟨hw, hr⟩), hs⟩
+          · rw [hw] at h
+            simp only [List.cons_append, List.nil_append, List.cons.injEq] at h
+            rw [h.1, h.2]; exact ⟨hy, hs⟩
+          · rw [hw, hr] at h; cases h
+
+/-- `||`: the body starts at the beginning of the name or right after a dot that ends a non-empty run
+of host characters -/
+def DomainStart (pre : List Char) : Prop :=
+  pre = [] ∨ (∃ q, q ≠ [] ∧ pre = q ++ ['.'] ∧ ∀ c ∈ pre, hostChar c = true)
+
+def PatMatches (p : Pat) (h : List Char) : Prop :=
+  match p.anchor with
+  | .domain => ∃ pre rest, h = pre ++ rest ∧ DomainStart pre ∧ SeqMatch p.endAnch p.toks rest
+  | .start => SeqMatch p.endAnch p.toks h
+  | .none => ∃ pre rest, h = pre ++ rest ∧ SeqMatch p.endAnch p.toks rest
+
+/-- `afterDots` with `n` characters already passed: some dot of the rest, reached over host characters
+only and not the very first character of the name, is followed by a string with `p`. -/
+theorem afterDots_iff (p : List Char → Bool) (n : Nat) (s : List Char) :
+    afterDots p n s = true ↔
+      ∃ q rest, s = q ++ '.' :: rest ∧ (∀ c ∈ q, hostChar c = true) ∧ (n ≠ 0 ∨ q ≠ []) ∧ p rest = true := by
+  induction s generalizing n with
+  | nil =>
+    simp only [afterDots]
+    constructor
+    · intro h; cases h
+    · rintro ⟨q, rest, h, _⟩
+      cases q <;> cases h
+  | cons x xs ih =>
+    simp only [afterDots, Bool.and_eq_true, Bool.or_eq_true, beq_iff_eq, bne_iff_ne, ih]
+    constructor
+    · rintro ⟨hx, (⟨⟨h1, h2⟩, h3⟩ | ⟨q, rest, h, hq, _, hp⟩)⟩
+      · exact ⟨[], xs, by rw [h1]; rfl, by simp, Or.inl h2, h3⟩
+      · refine ⟨x :: q, rest, by rw [h]; rfl, ?_, Or.inr (by simp), hp⟩
+        intro c hc
+        rcases List.mem_cons.mp hc with rfl | hc
+        · exact hx
+        · exact hq c hc
+    · rintro ⟨q, rest, h, hq, hn, hp⟩
+      cases q with
+      | nil =>
+        simp only [List.nil_append, List.cons.injEq] at h
+        rw [h.1, h.2]
+        refine ⟨by decide, Or.inl ⟨⟨rfl, ?_⟩, hp⟩⟩
+        rcases hn with hn | hn
+        · exact hn
+        · exact absurd rfl hn
+      | cons y q' =>
+        simp only [List.cons_append, List.cons.injEq] at h
+        rw [h.1]
+        refine ⟨hq y List.mem_cons_self, Or.inr ⟨q', rest, h.2, ?_, Or.inl (by omega), hp⟩⟩
+        intro c hc
+        exact hq c (List.mem_cons_of_mem _ hc)
+
+/-- The same with an explicit already-consumed prefix `done` of host characters: the rest `s` splits
+into `pre ++ rest` such that `done ++ pre` is a `DomainStart` ending in a dot. -/
+theorem afterDots_prefix_iff (p : List Char → Bool) (done s : List Char)
+    (hd : ∀ c ∈ done, hostChar c = true) :
+    afterDots p done.length s = true ↔
+      ∃ pre rest, s = pre ++ rest ∧ pre ≠ [] ∧ DomainStart (done ++ pre) ∧ p rest = true := by
+  rw [afterDots_iff]
+  constructor
+  · rintro ⟨q, rest, hs, hq, hn, hp⟩
+    refine ⟨q ++ ['.'], rest, by rw [hs]; simp, by simp, Or.inr ⟨done ++ q, ?_, by simp, ?_⟩, hp⟩
+    · rcases hn with hn | hn
+      · intro h
+        have := (List.append_eq_nil_iff.mp h).1
+        exact hn (by rw [this]; rfl)
+      · intro h
+        exact hn (List.append_eq_nil_iff.mp h).2
+    · intro c hc
+      simp only [List.mem_append, List.mem_singleton] at hc
+      rcases hc with hc | hc | hc
+      · exact hd c hc
+      · exact hq c hc
+      · rw [hc]; decide
+  · rintro ⟨pre, rest, hs, hne, (h0 | ⟨q2, hq2, he, hall⟩), hp⟩
+    · exact absurd (List.append_eq_nil_iff.mp h0).2 hne
+    · rcases List.eq_nil_or_concat pre with h | ⟨q, c, h⟩
+      · exact absurd h hne
+      · rw [List.concat_eq_append] at h
+        rw [h, ← List.append_assoc] at he
+        have := List.append_inj' he rfl
+        have hc : c = '.' := by simpa using this.2
+        refine ⟨q, rest, by rw [hs, h, hc]; simp, ?_, ?_, hp⟩
+        · intro x hx
+          exact hall x (by rw [h]; simp [hx])
+        · by_cases hq : q = []
+          · left
+            intro hl
+            have hd0 : done = [] := List.eq_nil_of_length_eq_zero hl
+            apply hq2
+            rw [← this.1, hd0, hq]; rfl
+          · exact Or.inr hq
+
+theorem pat_matches_iff (p : Pat) (h : List Char) : p.matches h = true ↔ PatMatches p h := by
+  unfold Pat.matches PatMatches
+  cases p.anchor with
+  | start => exact matchToks_iff _ _ _
+  | none => simp only [anySuffix_iff, matchToks_iff]
+  | domain =>
+    simp only [Bool.or_eq_true, afterDots_iff, matchToks_iff]
+    constructor
+    · rintro (h1 | ⟨q, rest, hh, hq, hn, hp⟩)
+      · exact ⟨[], h, rfl, Or.inl rfl, h1⟩
+      · have hq' : q ≠ [] := by
+          rcases hn with hn | hn
+          · exact absurd rfl hn
+          · exact hn
+        refine ⟨q ++ ['.'], rest, by rw [hh]; simp, Or.inr ⟨q, hq', rfl, ?_⟩, hp⟩
+        intro c hc
+        rcases List.mem_append.mp hc with hc | hc
+        · exact hq c hc
+        · rw [List.mem_singleton.mp hc]; decide
+    · rintro ⟨pre, rest, hh, (hpre | ⟨q, hq, hpre, hall⟩), hs⟩
+      · left; rw [hh, hpre]; exact hs
+      · right
+        refine ⟨q, rest, by rw [hh, hpre]; simp, ?_, Or.inr hq, hs⟩
+        intro c hc
+        exact hall c (by rw [hpre]; exact List.mem_append_left _ hc)
+
+/-! ## The common rule `||name^` -/
+
+def lits (d : List Char) : List Tok := d.map Tok.lit
+
+/-- `||name^` as a pattern. -/
+def dom (s : String) : Pat := ⟨.domain, lits s.toList ++ [.sep], false⟩
+
+theorem nonSep_of_hostChar (c : Char) (h : hostChar c = true) : nonSepChar c = true := by
+  simp only [hostChar, nonSepChar, Bool.or_eq_true] at *
+  rcases h with ((h | h) | h) | h <;> simp [h]
+
+/-- A run of literal tokens consumes exactly that many characters, equal up to letter case. -/
+theorem seqMatch_lits (e : Bool) (d : List Char) (ts : List Tok) (s : List Char) :
+    SeqMatch e (lits d ++ ts) s ↔
+      ∃ d' rest, s = d' ++ rest ∧ d'.map Char.toLower = d.map Char.toLower ∧ SeqMatch e ts rest := by
+  induction d generalizing s with
+  | nil =>
+    simp only [lits, List.map_nil, List.nil_append, List.map_eq_nil_iff]
+    constructor
+    · intro h; exact ⟨[], s, rfl, rfl, h⟩
+    · rintro ⟨d', rest, hs, hd, h⟩
+      rw [hs, hd]; exact h
+  | cons c d ih =>
+    have ih' := ih
+    simp only [lits] at ih'
+    simp only [lits, List.map_cons, List.cons_append, SeqMatch, TokMatch, ih']
+    constructor
+    · rintro ⟨w, rest, hs, ⟨x, hw, hx⟩, d', rest', hr, hd, h⟩
+      refine ⟨x :: d', rest', by rw [hs, hw, hr]; rfl, by simp [hx, hd], h⟩
+    · rintro ⟨d', rest, hs, hd, h⟩
+      cases d' with
+      | nil => simp at hd
+      | cons x d'' =>
+        simp only [List.map_cons, List.cons.injEq] at hd
+        exact ⟨[x], d'' ++ rest, by rw [hs]; rfl, ⟨x, rfl, hd.1⟩, d'', rest, rfl, hd.2, h⟩
+
+theorem map_lower_id (l : List Char) (h : ∀ c ∈ l, c.toLower = c) : l.map Char.toLower = l := by
+  induction l with
+  | nil => rfl
+  | cons a l ih =>
+    simp only [List.map_cons, h a List.mem_cons_self, ih (fun c hc => h c (List.mem_cons_of_mem _ hc))]
+
+/-- **The rule `||d^` on host names.** For a name of host characters (letters, digits, `-`, `_`, `.`)
+and lower-case `d` and name, the pattern `||d^` matches exactly `d` itself and every name that ends in
+`.d` after a non-empty prefix, i.e. `d` and its subdomains. -/
+theorem domain_rule_iff (d h : List Char) (hh : ∀ c ∈ h, hostChar c = true)
+    (hdl : ∀ c ∈ d, c.toLower = c) (hhl : ∀ c ∈ h, c.toLower = c) :
+    (⟨.domain, lits d ++ [.sep], false⟩ : Pat).matches h = true ↔
+      h = d ∨ ∃ q, q ≠ [] ∧ h = q ++ '.' :: d := by
+  rw [pat_matches_iff]
+  simp only [PatMatches, seqMatch_lits]
+  have key : ∀ pre rest, h = pre ++ rest →
+      ((∃ d' rest', rest = d' ++ rest' ∧ d'.map Char.toLower = d.map Char.toLower ∧
+          SeqMatch false [.sep] rest') ↔ rest = d) := by
+    intro pre rest hs
+    constructor
+    · rintro ⟨d', rest', hr, hd, w, r2, hr2, ht, _⟩
+      have hd'l : ∀ c ∈ d', c.toLower = c := by
+        intro c hc; exact hhl c (by rw [hs, hr]; simp [hc])
+      rw [map_lower_id d' hd'l, map_lower_id d hdl] at hd
+      rcases ht with ⟨x, hw, hx⟩ | ⟨hw, hr2'⟩
+      · have : hostChar x = true := hh x (by rw [hs, hr, hr2, hw]; simp)
+        rw [nonSep_of_hostChar x this] at hx; cases hx
+      · rw [hr, hr2, hw, hr2', hd]; simp
+    · intro hr
+      exact ⟨d, [], by simp [hr], rfl, [], [], rfl, Or.inr ⟨rfl, rfl⟩, by simp [SeqMatch]⟩
+  constructor
+  · rintro ⟨pre, rest, hs, hpre, hm⟩
+    have hr := (key pre rest hs).mp hm
+    rcases hpre with hpre | ⟨q, hq, hpre, _⟩
+    · left; rw [hs, hpre, hr]; rfl
+    · right; exact ⟨q, hq, by rw [hs, hpre, hr]; simp⟩
+  · rintro (hs | ⟨q, hq, hs⟩)
+    · exact ⟨[], d, by rw [hs]; rfl, Or.inl rfl, (key [] d (by rw [hs]; rfl)).mpr rfl⟩
+    · have hs' : h = (q ++ ['.']) ++ d := by rw [hs]; simp
+      refine ⟨q ++ ['.'], d, hs', Or.inr ⟨q, hq, rfl, ?_⟩, (key _ d hs').mpr rfl⟩
+      intro c hc
+      exact hh c (by rw [hs']; exact List.mem_append_left _ hc)
 
 end Agd.Access
